@@ -1,0 +1,22 @@
+// Copyright (C) 2024, Ava Labs, Inc. All rights reserved.
+// See the file LICENSE for licensing terms.
+
+//go:build verif
+
+// Package verifhook provides named observation points for fault-injection
+// tests of the accept pipeline. It is only active in binaries built with the
+// build tag "verif"; otherwise Point is an empty function.
+package verifhook
+
+import "sync/atomic"
+
+// Handler, if set, is invoked synchronously by Point on the calling goroutine.
+var Handler atomic.Pointer[func(name string, height uint64)]
+
+// Point reports that the accept pipeline reached the named point for the
+// block at the given height.
+func Point(name string, height uint64) {
+	if h := Handler.Load(); h != nil {
+		(*h)(name, height)
+	}
+}
